@@ -188,19 +188,3 @@ Proof.
 Qed.
 
 
-(* the defect *)
-Lemma P_unsorted_outer_refuted :
-  exists h g fuel g' x,
-    let run := graph_clone fuel true false g h in
-    closed h /\ g < next h /\ snd run = Ok g' /\
-    reach (cells (hp (fst run))) (next h) g' x /\ x < next h /\
-    (exists v, cells h x = Some (CValue v)) /\ In x (owned (cells h) 2 g) /\
-    In x (passed (fst run)) /\ assoc x (vmap (fst run)) <> None /\
-    snd (graph_clone fuel false false g h) = Raise RuntimeError.
-Proof.
-  exists wit_heap, 19, 3%nat, 38, 6. cbv zeta.
-  split; [exact wit_closed|]. split; [reflexivity|]. split; [exact wit_result|].
-  split; [exact wit_reach|]. split; [reflexivity|]. split; [exact wit_is_value|].
-  split; [exact wit_owned|]. destruct wit_use_before_def as [K1 K2]. split; [exact K1|].
-  split; [rewrite K2; discriminate|exact wit_rejected_without_flag].
-Qed.
